@@ -3,8 +3,12 @@
 //! Model-level requests (lean/C2paModel/Model/C01.lean), all H-free (`pre` = preimage of the
 //! signed digest; the implementation gets `sha(pre)`):
 //!   C01 dh   data=<hex> [mut=<op>] excl=<s:l:-,…|none|-> pre=<hex> alg=<a|-> calg=<a|-> url=<0|1>
-//!            upd=<0|1> range=<s:l|-> buf=<n>                  -> match[+extra] | mismatch[+extra] | fatal | panic
-//!            (`Claim::verify_hash_binding`, data-hash arm incl. the update-manifest re-basing)
+//!            upd=<0|1> range=<s:l|-> buf=<n>   -> <verdict>[+extra]/<logged code>/<success|failure> | fatal | panic
+//!            (`Claim::verify_hash_binding`, data-hash arm incl. the update-manifest re-basing; the
+//!            reply carries the status code that was really logged)
+//!   C01 bhv  (fields of `bh`) handler=<0|1>  -> same reply shape (`verify_hash_binding`, box-hash arm,
+//!            through both the `Bytes` and the `Stream` variant of `ClaimAssetData`)
+//!   C01 bmffv (fields of `bmff`) self=<ok|malformed>  -> same reply shape (BMFF arm)
 //!   C01 bh   data=<hex> [mut=<op>] src=<names:start:len;…|err|-> boxes=<names:alg:pre:excl;…>
 //!            calg=<a|-> buf=<n>                                -> ok | err:<class>
 //!            (`BoxHash::verify_stream_hash` with the given handler box map)
@@ -122,6 +126,9 @@ struct Report {
     state: String,
     success: Vec<String>,
     failure: Vec<String>,
+    /// codes logged for ingredient deltas (an update manifest's parent carries the hard binding)
+    delta_success: Vec<String>,
+    delta_failure: Vec<String>,
     /// canonical JSON without validation time
     json: String,
 }
@@ -143,11 +150,11 @@ fn read(format: &str, bytes: &[u8], sidecar: Option<&[u8]>) -> Report {
         }
     });
     match r {
-        Err(p) => Report { state: format!("Err:PANIC {p}"), success: vec![], failure: vec![], json: String::new() },
+        Err(p) => Report { state: format!("Err:PANIC {p}"), success: vec![], failure: vec![], delta_success: vec![], delta_failure: vec![], json: String::new() },
         Ok(Err(e)) => {
             let d = format!("{e:?}");
             let cls: String = d.chars().take_while(|c| c.is_ascii_alphanumeric()).collect();
-            Report { state: format!("Err:{cls}"), success: vec![], failure: vec![], json: String::new() }
+            Report { state: format!("Err:{cls}"), success: vec![], failure: vec![], delta_success: vec![], delta_failure: vec![], json: String::new() }
         }
         Ok(Ok(reader)) => {
             let mut v: serde_json::Value = serde_json::from_str(&reader.json()).unwrap_or(serde_json::Value::Null);
@@ -161,7 +168,14 @@ fn read(format: &str, bytes: &[u8], sidecar: Option<&[u8]>) -> Report {
                 success = a.success().iter().map(|s| s.code().to_string()).collect();
                 failure = a.failure().iter().map(|s| s.code().to_string()).collect();
             }
-            Report { state: format!("{:?}", reader.validation_state()), success, failure, json: canon_json(&v) }
+            let (mut delta_success, mut delta_failure) = (vec![], vec![]);
+            if let Some(ds) = reader.validation_results().and_then(|r| r.ingredient_deltas()) {
+                for d in ds {
+                    delta_success.extend(d.validation_deltas().success().iter().map(|s| s.code().to_string()));
+                    delta_failure.extend(d.validation_deltas().failure().iter().map(|s| s.code().to_string()));
+                }
+            }
+            Report { state: format!("{:?}", reader.validation_state()), success, failure, delta_success, delta_failure, json: canon_json(&v) }
         }
     }
 }
@@ -234,6 +248,8 @@ fn opt(s: &Option<String>) -> String {
 
 #[derive(Clone, Debug)]
 enum Mutation {
+    /// the signed asset itself (baseline of the model-level cases: the `match` verdicts)
+    Id,
     Flip(usize, u8),
     Set(usize, u8),
     Ins(usize, Vec<u8>),
@@ -245,6 +261,7 @@ enum Mutation {
 impl Mutation {
     fn kind(&self) -> &'static str {
         match self {
+            Mutation::Id => "id",
             Mutation::Flip(..) => "flip",
             Mutation::Set(..) => "set",
             Mutation::Ins(..) => "insert",
@@ -256,6 +273,7 @@ impl Mutation {
 
     fn text(&self) -> String {
         match self {
+            Mutation::Id => "id".into(),
             Mutation::Flip(p, m) => format!("flip:{p}:{m}"),
             Mutation::Set(p, v) => format!("set:{p}:{v}"),
             Mutation::Ins(p, b) => format!("ins:{p}:{}", hex(b)),
@@ -268,6 +286,7 @@ impl Mutation {
     fn apply(&self, d: &[u8]) -> Vec<u8> {
         let mut v = d.to_vec();
         match self {
+            Mutation::Id => {}
             Mutation::Flip(p, m) => v[*p] ^= *m,
             Mutation::Set(p, x) => v[*p] = *x,
             Mutation::Ins(p, b) => {
@@ -364,26 +383,65 @@ fn dh_impl(c: &DhCase, data: &[u8]) -> String {
     }
 }
 
+/// `<verdict>[+extra]/<code>/<success|failure>` from what the arm really logged: the (single)
+/// `assertion.<kind>.*` entry other than the informational `additionalExclusionsPresent`.
 fn verdict_of_log(log: &StatusTracker, kind: &str) -> String {
-    let (mut m, mut mm, mut extra) = (false, false, false);
+    let prefix = format!("assertion.{kind}.");
+    let mut extra = false;
+    let mut entries: Vec<(String, &'static str)> = vec![];
     for it in log.logged_items() {
         let code = it.validation_status.as_deref().unwrap_or("");
-        if code == format!("assertion.{kind}.match") && matches!(it.kind, LogKind::Success) {
-            m = true;
-        }
-        if code == format!("assertion.{kind}.mismatch") && matches!(it.kind, LogKind::Failure) {
-            mm = true;
-        }
         if code == "assertion.dataHash.additionalExclusionsPresent" {
             extra = true;
+            continue;
+        }
+        if code.starts_with(&prefix) {
+            let k = match it.kind {
+                LogKind::Success => "success",
+                LogKind::Failure => "failure",
+                _ => "informational",
+            };
+            entries.push((code.to_string(), k));
         }
     }
     let x = if extra { "+extra" } else { "" };
-    match (m, mm) {
-        (true, false) => format!("match{x}"),
-        (false, true) => format!("mismatch{x}"),
-        _ => format!("none{x}"),
+    if entries.len() != 1 {
+        return format!("none{x}:{}", entries.len());
     }
+    let (code, k) = &entries[0];
+    let verdict = match (code.rsplit('.').next().unwrap_or(""), *k) {
+        ("match", "success") => "match",
+        ("mismatch", "failure") => "mismatch",
+        ("malformed", "failure") => "malformed",
+        _ => "other",
+    };
+    format!("{verdict}{x}/{code}/{k}")
+}
+
+/// `Claim::verify_hash_binding` on a claim that carries `assertion`, through the `Bytes` and the
+/// `Stream` variant of `ClaimAssetData`; both replies (they must agree).
+fn bind_impl<A: AssertionBase + Sync>(assertion: &A, format: &str, data: &[u8], kind: &str) -> (String, String) {
+    let one = |stream: bool| -> String {
+        let r = guarded(std::panic::AssertUnwindSafe(|| {
+            let mut claim = hook::Claim::new_with_user_guid("verif", "urn:c2pa:00000001-0000-4000-8000-000000000001", 2).expect("claim");
+            claim.add_assertion(assertion).expect("add hard binding");
+            let ctx = Context::new();
+            let mut log = StatusTracker::default();
+            let res = if stream {
+                let mut c = Cursor::new(data.to_vec());
+                hook::verify_hash_binding_stream(&claim, &mut c, format, None, None, &mut log, &ctx)
+            } else {
+                hook::verify_hash_binding(&claim, data, format, None, None, &mut log, &ctx)
+            };
+            (res.map_err(|e| err_class(&e)), log)
+        }));
+        match r {
+            Err(_) => "panic".into(),
+            Ok((Err(_), _)) => "fatal".into(),
+            Ok((Ok(()), log)) => verdict_of_log(&log, kind),
+        }
+    };
+    (one(false), one(true))
 }
 
 /// the harness' own idea of the re-based exclusions (only used to produce interesting preimages)
@@ -490,7 +548,7 @@ fn dh_function_level(run: &mut Run, rng: &mut Rng, count: usize) {
     for _ in 0..count {
         let c = gen_dh(rng);
         let imp = dh_impl(&c, &c.data);
-        run.count(&format!("dh:{}", imp.split('+').next().unwrap_or("")));
+        run.count(&format!("dh:{}", imp.split(['+', '/']).next().unwrap_or("")));
         if c.upd && c.range.is_some() {
             run.count("dh:rebase-branch");
         }
@@ -673,6 +731,20 @@ fn gen_bh(rng: &mut Rng) -> (Vec<u8>, Option<Vec<Src>>, Vec<Entry>, Option<Strin
         let name = if name == "C2PA" && Some(i) != c2pa_at { "IDAT" } else { name };
         src.push(Src { names: vec![name.to_string()], start: cuts[i] as u64, len: (cuts[i + 1] - cuts[i]) as u64 });
     }
+    // the form the SDK signs: one name per entry; with JPEG-like nested boxes (RSTn inside SOS)
+    let single = rng.chance(1, 3);
+    if single && rng.chance(1, 2) {
+        let mut i = 0;
+        while i < src.len() {
+            if src[i].len >= 3 && src[i].names[0] != "C2PA" && rng.chance(1, 2) {
+                let inner = Src { names: vec!["RST0".to_string()], start: src[i].start + 1, len: rng.range(1, src[i].len - 1) };
+                src.insert(i + 1, inner);
+                i += 1;
+            }
+            i += 1;
+        }
+    }
+    let k = src.len();
     // occasional layout defects of the map itself
     match rng.below(14) {
         0 => {
@@ -698,7 +770,7 @@ fn gen_bh(rng: &mut Rng) -> (Vec<u8>, Option<Vec<Src>>, Vec<Entry>, Option<Strin
     let mut i = 0;
     while i < src.len() {
         let is_c2pa = src[i].names.first().map(|s| s == "C2PA").unwrap_or(false);
-        let take = if is_c2pa && !rng.chance(1, 12) { 1 } else { rng.range(1, 3) as usize };
+        let take = if single || (is_c2pa && !rng.chance(1, 12)) { 1 } else { rng.range(1, 3) as usize };
         let j = (i + take).min(src.len());
         let j = if !is_c2pa {
             // do not swallow a C2PA box into a group, mostly
@@ -852,8 +924,14 @@ fn bh_function_level(run: &mut Run, rng: &mut Rng, count: usize) {
                 .as_ref()
                 .map(|v| v.iter().all(|s| !s.names.is_empty()) && v.windows(2).all(|w| w[0].start + w[0].len == w[1].start) && v.first().map(|s| s.start == 0).unwrap_or(true))
                 .unwrap_or(false);
-            // the guarantee is stated for well-formed maps (boxes tile the file from 0)
-            if tiles && !unsupported {
+            // the guarantee is stated for well-formed maps (boxes tile the file from 0:
+            // `boxhash_binds`) and, for assertions with one name per entry, for every box map,
+            // nested / overlapping ones included (`boxhash_every_byte`)
+            let single_names = es.iter().all(|e| e.names.len() == 1) && src.as_ref().map(|v| v.iter().all(|s| !s.names.is_empty())).unwrap_or(false);
+            if single_names && !tiles {
+                run.count("bh:ok-single-name-non-tiling");
+            }
+            if (tiles || single_names) && !unsupported {
                 if let Err(why) = bh_oracle_covered(&data, src.as_ref().unwrap(), &es) {
                     let only_c2pa = src.as_ref().unwrap().iter().all(|s| s.names[0] == "C2PA");
                     if !only_c2pa {
@@ -898,6 +976,11 @@ fn in_ranges(rs: &[(u64, u64)], p: u64) -> bool {
     rs.iter().any(|(s, l)| *s <= p && p < *s + *l)
 }
 
+/// `svi.manifest_store_range` as `Store` computes it: the first Cai object location
+fn store_range_of(format: &str, bytes: &[u8]) -> Option<(u64, u64)> {
+    ec::op_locations(format, bytes).ok().and_then(|locs| locs.into_iter().find(|(_, _, k)| *k == 0).map(|(o, l, _)| (o as u64, l as u64)))
+}
+
 fn box_map_of(format: &str, bytes: &[u8]) -> Option<Vec<Src>> {
     let (f, b) = (format.to_string(), bytes.to_vec());
     match guarded(move || hook::box_map(&f, &mut Cursor::new(b))) {
@@ -918,18 +1001,36 @@ fn binding_info(run: &mut Run, format: &str, bytes: &[u8], sidecar: Option<&[u8]
     let Some(jumbf) = jumbf else { return (BindingInfo::Unknown, vec![]) };
     let mut log = StatusTracker::default();
     let Ok(store) = hook::Store::from_jumbf(&jumbf, &mut log) else { return (BindingInfo::Unknown, vec![]) };
-    let Some(claim) = store.provenance_claim() else { return (BindingInfo::Unknown, vec![]) };
+    let Some(pc) = store.provenance_claim() else { return (BindingInfo::Unknown, vec![]) };
+    // an update manifest has no hard binding of its own: the binding claim is the newest
+    // earlier claim that has one
+    let claim = if pc.hash_assertions().is_empty() {
+        match store.claims().into_iter().rev().find(|c| !c.hash_assertions().is_empty()) {
+            Some(c) => c,
+            None => return (BindingInfo::Unknown, vec![]),
+        }
+    } else {
+        pc
+    };
+    let is_update = pc.hash_assertions().is_empty();
+    let store_range: Option<(u64, u64)> = if is_update { store_range_of(format, bytes) } else { None };
     let calg = claim.alg().to_string();
     for ha in claim.hash_assertions() {
         let label = ha.label_raw();
         if label.starts_with(DataHash::LABEL) {
             if let Ok(dh) = DataHash::from_assertion(ha.assertion()) {
                 let excl: Option<Vec<R3>> = dh.exclusions.as_ref().map(|v| v.iter().map(|r| (r.start(), r.length(), None)).collect());
-                let declared = excl.clone().unwrap_or_default().iter().map(|r| (r.0, r.1)).collect();
-                let pre = select_plain(bytes, excl.as_deref().unwrap_or(&[]));
+                // with an update manifest the exclusions that apply are the re-based ones
+                let eff: Vec<R3> = match (&excl, is_update) {
+                    (Some(v), true) => ideal_rebase(v, store_range),
+                    (Some(v), false) => v.clone(),
+                    (None, _) => vec![],
+                };
+                let declared = eff.iter().map(|r| (r.0, r.1)).collect();
+                let pre = select_plain(bytes, &eff);
                 let alg = dh.alg.clone().unwrap_or(calg.clone());
-                run.obligations.insert(format!("preimage-is-signed-digest:data:{format}"), digest(&alg, &pre) == dh.hash);
-                let case = DhCase { data: bytes.to_vec(), excl, pre, alg: dh.alg.clone(), upd: false, range: None };
+                run.obligations.insert(format!("preimage-is-signed-digest:{}:{format}", if is_update { "update" } else { "data" }), digest(&alg, &pre) == dh.hash);
+                let case = DhCase { data: bytes.to_vec(), excl, pre, alg: dh.alg.clone(), upd: is_update, range: store_range };
                 return (BindingInfo::Data { case }, declared);
             }
         } else if label.starts_with(BoxHash::LABEL) {
@@ -1005,8 +1106,9 @@ fn prepare(run: &mut Run, label: &str, format: &str, src: &[u8], binding: Bindin
     }
     let (info, mut declared) = binding_info(run, format, &bytes, sidecar.as_deref());
     let kind_ok = match (&info, binding) {
-        // the active manifest is the update manifest (no hard binding of its own): the declared
-        // exclusion is the manifest store found in the asset (filled in below), oracle only
+        // the active manifest is the update manifest (no hard binding of its own): the binding is
+        // the parent's; the declared exclusions are the re-based ones plus the manifest store
+        // found in the asset (filled in below)
         (_, Binding::Update) => true,
         (BindingInfo::Data { .. }, Binding::Data | Binding::Sidecar) => true,
         (BindingInfo::Box { .. }, Binding::Box) => true,
@@ -1048,7 +1150,7 @@ fn prepare(run: &mut Run, label: &str, format: &str, src: &[u8], binding: Bindin
             manifest = declared.clone();
         }
         if binding == Binding::Update {
-            declared = manifest.clone();
+            declared.extend(manifest.iter().cloned());
         }
     }
     for (s, l) in &declared {
@@ -1059,7 +1161,6 @@ fn prepare(run: &mut Run, label: &str, format: &str, src: &[u8], binding: Bindin
     bounds.sort();
     bounds.dedup();
     run.count(&format!("signed:{}:{}", binding.tag(), format));
-    let info = if binding == Binding::Update { BindingInfo::Unknown } else { info };
     Some(Signed { label: label.to_string(), format: format.to_string(), binding, bytes, sidecar, base, declared, manifest, bounds, info, small })
 }
 
@@ -1073,31 +1174,56 @@ fn check_mutation(run: &mut Run, s: &Signed, m: &Mutation, with_model: bool) {
     run.count(&format!("e2e:{kind}:{}", if rep.accepted() { "accepted" } else if rep.state.starts_with("Err") { "error" } else { "invalid" }));
     // confined to declared exclusions?
     let same_len = mutated.len() == s.bytes.len();
-    let confined = same_len && (0..mutated.len()).all(|i| mutated[i] == s.bytes[i] || in_ranges(&s.declared, i as u64));
+    // a removal is confined when every removed byte lies in a declared exclusion (e.g. the whole
+    // trailing `mfra` box of a fragmented MP4, excluded by path) — the remaining bytes are the
+    // signed ones; whether they still sit where the binding expects them is the verifier's job
+    let removal_confined = match m {
+        Mutation::Del(p, n) => (*p..*p + *n).all(|i| in_ranges(&s.declared, i as u64)),
+        Mutation::Trunc(n) => (*n..s.bytes.len()).all(|i| in_ranges(&s.declared, i as u64)),
+        _ => false,
+    };
+    let confined = (same_len && (0..mutated.len()).all(|i| mutated[i] == s.bytes[i] || in_ranges(&s.declared, i as u64))) || removal_confined;
     let changed = mutated != s.bytes;
     let touches_manifest = match m {
         Mutation::Flip(p, _) | Mutation::Set(p, _) => in_ranges(&s.manifest, *p as u64),
         Mutation::Ins(p, _) => s.manifest.iter().any(|(a, l)| *a < *p as u64 && (*p as u64) < *a + *l),
         Mutation::Del(p, n) => (0..*n).any(|k| in_ranges(&s.manifest, (*p + k) as u64)),
-        Mutation::App(_) => false,
+        Mutation::App(_) | Mutation::Id => false,
         Mutation::Trunc(n) => s.manifest.iter().any(|(a, l)| (*n as u64) < *a + *l),
     };
     let mut idx = None;
     // model-level case
-    if with_model && s.small && changed && !touches_manifest && s.sidecar.is_none() {
+    if with_model && s.small && (changed || matches!(m, Mutation::Id)) && !touches_manifest && s.sidecar.is_none() {
         match &s.info {
             BindingInfo::Data { case } => {
+                // update manifest: the store range is recomputed from the asset being validated
+                let recomputed;
+                let case = if case.upd {
+                    recomputed = DhCase { data: case.data.clone(), excl: case.excl.clone(), pre: case.pre.clone(), alg: case.alg.clone(), upd: true, range: store_range_of(&s.format, &mutated) };
+                    run.count(if recomputed.range == case.range { "update:range-unchanged" } else { "update:range-moved" });
+                    &recomputed
+                } else {
+                    case
+                };
                 let imp = dh_impl(case, &mutated);
                 idx = Some(run.case(dh_request(case, Some(m)), imp.clone()));
                 run.nontrivial(format!("e2e:{tag}:{}", m.text()));
-                run.count(&format!("model-e2e:dh:{imp}"));
-                let reader_verdict = if rep.success.iter().any(|c| c == "assertion.dataHash.match") {
+                run.count(&format!("model-e2e:dh:{}", imp.split('/').next().unwrap_or("")));
+                // with an update manifest the parent's `dataHash.match` is not surfaced (only
+                // differences are reported for ingredients): a mismatch shows as a failure of the
+                // active manifest or of an ingredient delta, an accepted state implies the match
+                let reader_verdict = if rep.success.iter().chain(rep.delta_success.iter()).any(|c| c == "assertion.dataHash.match") {
                     "match"
-                } else if rep.failure.iter().any(|c| c == "assertion.dataHash.mismatch") {
+                } else if rep.failure.iter().chain(rep.delta_failure.iter()).any(|c| c == "assertion.dataHash.mismatch") {
                     "mismatch"
+                } else if case.upd && rep.accepted() {
+                    "match"
                 } else {
                     "none"
                 };
+                if case.upd {
+                    run.count(&format!("update:reader-verdict-{reader_verdict}"));
+                }
                 if reader_verdict != "none" && !imp.starts_with(reader_verdict) {
                     run.fail(idx.unwrap(), "reader-verdict-differs", format!("{tag} {}: reader says {reader_verdict}, verify_hash_binding says {imp}", m.text()));
                 }
@@ -1119,6 +1245,30 @@ fn check_mutation(run: &mut Run, s: &Signed, m: &Mutation, with_model: bool) {
                     };
                     if reader_verdict != "none" && !imp.starts_with(reader_verdict) {
                         run.fail(idx.unwrap(), "reader-verdict-differs", format!("{tag} {}: reader says {reader_verdict}, BoxHash::verify_stream_hash says {imp}", m.text()));
+                    }
+                    // function-level oracle on the *real* box map of the mutated asset: a match
+                    // means every byte lies in a span whose bytes are the signed ones (or in the
+                    // C2PA / excluded entry) — `boxhash_every_byte`, no layout assumption
+                    if imp == "ok" && entries.iter().all(|e| e.names.len() == 1) {
+                        if let Some(real) = &src {
+                            run.count("bh:real-map-oracle");
+                            if let Err(why) = bh_oracle_covered(&mutated, real, entries) {
+                                run.fail(idx.unwrap(), "boxhash-ok-uncovered-real", format!("{tag} {}: box hash verified although {why}", m.text()));
+                            }
+                        }
+                    }
+                    // the box-hash arm of verify_hash_binding (verdict + logged code), Bytes and Stream
+                    if calg.as_deref() == Some("sha256") {
+                        let (vb, vs) = bind_impl(&bh, &s.format, &mutated, "boxesHash");
+                        let req = bh_request(&s.bytes, Some(m), &src, entries, calg).replacen("C01 bh ", "C01 bhv handler=1 ", 1);
+                        let i2 = run.case(req, vb.clone());
+                        run.count(&format!("model-e2e:bhv:{}", vb.split('/').next().unwrap_or("")));
+                        if vb != vs {
+                            run.fail(i2, "bytes-stream-differ", format!("{tag} {}: verify_hash_binding says {vb} on Bytes and {vs} on Stream", m.text()));
+                        }
+                        if vb.starts_with("match") != (imp == "ok") {
+                            run.fail(i2, "arm-verdict-differs", format!("{tag} {}: BoxHash::verify_stream_hash says {imp}, verify_hash_binding logs {vb}", m.text()));
+                        }
                     }
                 }
             }
@@ -1165,6 +1315,34 @@ fn check_mutation(run: &mut Run, s: &Signed, m: &Mutation, with_model: bool) {
                 if reader_verdict != "none" && !imp.starts_with(reader_verdict) {
                     run.fail(idx.unwrap(), "reader-verdict-differs", format!("{tag} {}: reader says {reader_verdict}, BmffHash::verify_stream_hash says {imp}", m.text()));
                 }
+                // the BMFF arm of verify_hash_binding (verdict + logged code), Bytes and Stream;
+                // about every 7th case with the exclusion map emptied (`verify_self` -> malformed)
+                let malformed = m.text().bytes().map(|b| b as usize).sum::<usize>() % 7 == 0;
+                let Some(mut hh) = hash.to_assertion().ok().and_then(|a| BmffHash::from_assertion(&a).ok()) else { return };
+                if malformed {
+                    hh.exclusions_mut().clear();
+                }
+                let (vb, vs) = bind_impl(&hh, &s.format, &mutated, "bmffHash");
+                let req2 = format!(
+                    "C01 bmffv self={} data={} mut={} excl={} pre={} alg={} buf=4096",
+                    if malformed { "malformed" } else { "ok" },
+                    hex(&s.bytes),
+                    m.text(),
+                    match &ex {
+                        None => "err".to_string(),
+                        Some(_) => ranges_str(&ex),
+                    },
+                    hex(pre),
+                    alg
+                );
+                let i2 = run.case(req2, vb.clone());
+                run.count(&format!("model-e2e:bmffv:{}", vb.split('/').next().unwrap_or("")));
+                if vb != vs {
+                    run.fail(i2, "bytes-stream-differ", format!("{tag} {}: verify_hash_binding says {vb} on Bytes and {vs} on Stream", m.text()));
+                }
+                if !malformed && vb.starts_with("match") != (imp == "ok") {
+                    run.fail(i2, "arm-verdict-differs", format!("{tag} {}: BmffHash::verify_stream_hash says {imp}, verify_hash_binding logs {vb}", m.text()));
+                }
             }
             BindingInfo::Unknown => {}
         }
@@ -1188,14 +1366,32 @@ fn check_mutation(run: &mut Run, s: &Signed, m: &Mutation, with_model: bool) {
         if !confined {
             let class = format!("accepted-{kind}-{}", s.binding.tag());
             fail(run, class, format!("{tag} ({}) {}: reader state {} although the change is outside the declared exclusions {:?}", s.label, m.text(), rep.state, s.declared));
+        } else if removal_confined && rep.json == s.base.json {
+            run.count(&format!("e2e:removal-of-excluded-bytes-accepted:{}", s.binding.tag()));
+        } else if rep.json != s.base.json && rolled_back(&s.base.json, &rep.json) {
+            // the active manifest is now an *earlier* manifest of the signed store: the newest
+            // manifest was dropped and the reader still says Valid
+            fail(run, format!("active-manifest-rolled-back-{}", s.binding.tag()), format!("{tag} ({}) {}: accepted, but the active manifest is now an earlier manifest of the signed store (the update manifest is silently dropped); C2PA boxes / exclusions at {:?}", s.label, m.text(), s.manifest));
         } else if rep.json != s.base.json {
-            fail(run, format!("report-changed-{}", s.binding.tag()), format!("{tag} ({}) {}: accepted with a different report", s.label, m.text()));
+            let (a, b) = (s.base.json.as_bytes(), rep.json.as_bytes());
+            let at = a.iter().zip(b.iter()).position(|(x, y)| x != y).unwrap_or(a.len().min(b.len()));
+            let lo = at.saturating_sub(60);
+            let snip = |t: &[u8]| String::from_utf8_lossy(&t[lo.min(t.len())..(at + 80).min(t.len())]).to_string();
+            fail(run, format!("report-changed-{}", s.binding.tag()), format!("{tag} ({}) {}: accepted with a different report; store at {:?}; signed report ..{}.. now ..{}..", s.label, m.text(), s.manifest, snip(a), snip(b)));
         }
     }
     if !rep.accepted() && !rep.state.starts_with("Err") && rep.failure.is_empty() {
         // Invalid must come with a failure code (C04 composes on it)
         fail(run, "invalid-without-failure-code".into(), format!("{tag} {}: state {} without failure code", m.text(), rep.state));
     }
+}
+
+/// the report after the mutation names as active manifest a manifest that the signed report
+/// lists as a non-active one
+fn rolled_back(base: &str, now: &str) -> bool {
+    let (Ok(b), Ok(n)) = (serde_json::from_str::<serde_json::Value>(base), serde_json::from_str::<serde_json::Value>(now)) else { return false };
+    let (Some(ba), Some(na)) = (b.get("active_manifest").and_then(|v| v.as_str()), n.get("active_manifest").and_then(|v| v.as_str())) else { return false };
+    ba != na && b.get("manifests").and_then(|m| m.as_object()).map(|m| m.contains_key(na)).unwrap_or(false)
 }
 
 fn mutations_for(s: &Signed, rng: &mut Rng, thorough: bool, per_asset: usize) -> Vec<(Mutation, bool)> {
@@ -1309,7 +1505,7 @@ fn e2e(run: &mut Run, rng: &mut Rng) {
                     signed.push(s);
                 }
             }
-            if round == 0 && !matches!(fam, Family::Bmff) {
+            if round == 0 {
                 if let Some(s) = prepare(run, &format!("gen{round}:{}", a.desc), &fmt, &a.bytes, Binding::Update, true) {
                     signed.push(s);
                 }
@@ -1322,6 +1518,45 @@ fn e2e(run: &mut Run, rng: &mut Rng) {
         for b in bindings_for(format) {
             if let Some(s) = prepare(run, file, format, &src, b, src.len() < 8000) {
                 signed.push(s);
+            }
+        }
+    }
+    // debugging aid: restrict the end-to-end part to one `binding:format` combination
+    if let Ok(only) = std::env::var("C01_ONLY") {
+        signed.retain(|s| format!("{}:{}", s.binding.tag(), s.format) == only);
+    }
+    // the box-hash arm on formats without a handler / without box-hash support: both lookups
+    // are propagated with `?` (the call fails, nothing is logged)
+    for fmt in ["image/tiff", "audio/wav", "application/x-verif-unknown", "video/mp4"] {
+        if hook::box_hash_handler(fmt).is_some() {
+            continue;
+        }
+        let es = vec![Entry { names: vec!["X".into()], alg: Some("sha256".into()), pre: vec![0], excluded: None }];
+        let calg = Some("sha256".to_string());
+        let bh = to_box_hash(&es, &calg);
+        let (vb, vs) = bind_impl(&bh, fmt, &[0u8], "boxesHash");
+        let req = bh_request(&[0u8], None, &Some(vec![]), &es, &calg).replacen("C01 bh ", "C01 bhv handler=0 ", 1);
+        let i = run.case(req, vb.clone());
+        run.count(&format!("bhv:no-handler:{vb}"));
+        if vb != vs {
+            run.fail(i, "bytes-stream-differ", format!("{fmt}: verify_hash_binding says {vb} on Bytes and {vs} on Stream"));
+        }
+    }
+    // baseline: the unmodified signed assets through the function-level verifiers (the `match`
+    // verdicts and codes; the real-box-map oracle on an accepted asset)
+    for s in signed.iter().filter(|s| s.small) {
+        check_mutation(run, s, &Mutation::Id, true);
+    }
+    // replay of the update-manifest roll-back on BMFF (known finding): the update manifests live
+    // in a C2PA `uuid` box of their own (the last one); flip the bytes around the JUMBF headers
+    // of its first manifest (superbox type, description box, manifest type UUID)
+    for s in signed.iter().filter(|s| s.binding == Binding::Update && bindings_for(&s.format) == vec![Binding::Bmff]) {
+        if let Some((start, len)) = s.manifest.iter().filter(|(_, l)| *l > 256).max_by_key(|(a, _)| *a).cloned() {
+            for off in 76..120u64 {
+                if off < len {
+                    check_mutation(run, s, &Mutation::Flip((start + off) as usize, 0x20), false);
+                    run.count("replay:update-rollback-bmff");
+                }
             }
         }
     }
